@@ -29,7 +29,8 @@ Record case := mkCase {
   (* whole-file cases only: (history, notion, "is it defined in block mode?") with
      history 0 = block scanner created on a fresh thread, 1 = converted from a Scanner that scanned a file,
      2 = fresh block scanner after another scanner scanned a file on this thread;
-     notion 0 = filesize, 1 = uintN readers, 2 = hash functions, 3 = module fields, 4 = math on data *)
+     notion 0 = filesize, 1 = uintN readers, 2 = hash functions, 3 = module fields, 4 = math on data,
+     5 = items of a module's array of structures *)
   c_whole : list (N * N * bool);
   (* rules `$a at n or ...`: (n, the literal, did the rule match?, the matches reported for $a) *)
   c_anchored : list (N * list N * bool * list rmatch);
@@ -73,7 +74,7 @@ Definition whole_model (h notion : N) : bool :=
   match notion with
   | 0 => negb (st CGFilesize =? fresh CGFilesize)
   | 2 => negb (st (CTL tl_hash_MD5_CACHE) =? 0)
-  | 3 => negb (st CRootModules =? fresh CRootModules)
+  | 3 | 5 => negb (st CRootModules =? fresh CRootModules)     (* module fields; items of module struct arrays *)
   | _ => false     (* readers of the scanned data find none in block mode (ScanContext::scanned_data) *)
   end.
 
